@@ -1,5 +1,12 @@
 package bpmn
 
+import (
+	"context"
+
+	"github.com/olive-io/bpmn/schema"
+	"github.com/olive-io/bpmn/v2/pkg/id"
+)
+
 // C03.a: distributeFlows hands every outgoing flow to exactly one parked token.
 func VerifC03a_Distribute() {
 	a := verifNondetInt("A", 0, 4)
@@ -40,4 +47,121 @@ func VerifC03a_Distribute() {
 		verifAssert(next == f, "no outgoing flow lost")
 	}
 	verifReach("checked")
+}
+
+// ---------------------------------------------------------------------------------------------
+// C03.c: the real parallel gateway (constructor, run goroutine, NextAction, flowWhenReady,
+// distributeFlows) with N upstream tokens arriving in any order, R consecutive activations.
+
+type verifFlowRef struct{ n int }
+
+func (f *verifFlowRef) Id() id.Id                   { return &verifId{n: f.n} }
+func (f *verifFlowRef) SequenceFlow() *SequenceFlow { return nil }
+
+var verifOutIds = []string{"o0", "o1", "o2", "o3"}
+
+func verifMkWiring(n, m int) *wiring {
+	wr := &wiring{tracer: &verifTracer{done: make(chan struct{})}, flowNodeId: "gw"}
+	wr.incoming = make([]SequenceFlow, n)
+	wr.outgoing = make([]SequenceFlow, m)
+	for j := 0; j < m; j++ {
+		sf := schema.DefaultSequenceFlow()
+		oid := verifOutIds[j]
+		sf.SetId(&oid)
+		wr.outgoing[j] = MakeSequenceFlow(&sf, nil)
+	}
+	return wr
+}
+
+func verifC03c(n, m, rounds int) {
+	ctx := context.Background()
+	wr := verifMkWiring(n, m)
+	elem := schema.DefaultParallelGateway()
+	gw, _ := newParallelGateway(wr, &elem)
+	var arrived int64
+	var answered [3]int64
+	var handed [3][4]int64
+	for i := 0; i < n; i++ {
+		fl := &verifFlowRef{n: i}
+		go func() {
+			for r := 0; r < rounds; r++ {
+				verifAdd(&arrived, 1)
+				act := <-gw.NextAction(ctx, fl)
+				verifAssert(verifGet(&arrived) >= int64(n*(r+1)), "nothing is released before a token has arrived on every incoming flow")
+				verifAdd(&answered[r], 1)
+				switch a := act.(type) {
+				case flowAction:
+					for _, sf := range a.sequenceFlows {
+						for j := 0; j < m; j++ {
+							if sf == &wr.outgoing[j] {
+								verifAdd(&handed[r][j], 1)
+							}
+						}
+					}
+				case completeAction:
+				default:
+					verifAssert(false, "unexpected action kind from the parallel gateway")
+				}
+			}
+		}()
+	}
+	verifQuiesce()
+	verifReach("quiescent")
+	for r := 0; r < rounds; r++ {
+		verifAssert(verifGet(&answered[r]) == int64(n), "every arrived token is answered once all have arrived (none waits forever)")
+		for j := 0; j < m; j++ {
+			verifAssert(verifGet(&handed[r][j]) == 1, "each outgoing flow receives exactly one token per activation")
+		}
+	}
+	verifAssert(gw.reportedIncomingFlows == 0 && len(gw.awaitingActions) == 0, "nothing is carried into the next activation")
+}
+
+func VerifC03c_1x1_R2() { verifC03c(1, 1, 2) }
+func VerifC03c_2x1_R2() { verifC03c(2, 1, 2) }
+func VerifC03c_1x2_R2() { verifC03c(1, 2, 2) }
+func VerifC03c_2x2_R2() { verifC03c(2, 2, 2) }
+func VerifC03c_3x2_R2() { verifC03c(3, 2, 2) }
+func VerifC03c_2x3_R2() { verifC03c(2, 3, 2) }
+func VerifC03c_3x3_R2() { verifC03c(3, 3, 2) }
+func VerifC03c_3x1_R2() { verifC03c(3, 1, 2) }
+func VerifC03c_1x3_R2() { verifC03c(1, 3, 2) }
+func VerifC03c_4x4_R1() { verifC03c(4, 4, 1) }
+func VerifC03c_4x2_R2() { verifC03c(4, 2, 2) }
+func VerifC03c_2x4_R2() { verifC03c(2, 4, 2) }
+func VerifC03c_3x3_R3() { verifC03c(3, 3, 3) }
+func VerifC03c_4x4_R3() { verifC03c(4, 4, 3) }
+
+// C03.b: one step of the run loop's counter logic from an arbitrary valid state (inductive):
+// reported in 0..N-1 with that many parked tokens; after one more arrival the gateway releases iff
+// reported+1 == N and is then back in its initial state.
+func VerifC03b_CounterStep() {
+	n := verifNondetInt("N", 1, 4)
+	rep := verifNondetInt("reported", 0, 3)
+	verifAssume(rep < n)
+	wr := verifMkWiring(4, 2)
+	gw := &parallelGateway{wiring: wr, noOfIncomingFlows: n, reportedIncomingFlows: rep, awaitingActions: make([]chan IAction, 0)}
+	chans := make([]chan IAction, 0, 4)
+	for i := 0; i < rep; i++ {
+		c := make(chan IAction, 1)
+		chans = append(chans, c)
+		gw.awaitingActions = append(gw.awaitingActions, c)
+	}
+	last := make(chan IAction, 1)
+	chans = append(chans, last)
+	verifReach("state built")
+	// the nextActionMessage arm of run()
+	gw.reportedIncomingFlows++
+	gw.awaitingActions = append(gw.awaitingActions, last)
+	gw.flowWhenReady()
+	if rep+1 == n {
+		verifAssert(gw.reportedIncomingFlows == 0 && len(gw.awaitingActions) == 0, "release resets the gateway")
+		for i := 0; i <= rep; i++ {
+			verifAssert(len(chans[i]) == 1, "release answers every parked token")
+		}
+	} else {
+		verifAssert(gw.reportedIncomingFlows == rep+1 && len(gw.awaitingActions) == rep+1, "no release keeps the arrival parked")
+		for i := 0; i <= rep; i++ {
+			verifAssert(len(chans[i]) == 0, "nothing is sent before the last arrival")
+		}
+	}
 }
